@@ -235,7 +235,40 @@ fn matrix(ctx: &Ctx, rep: &mut Report) {
             });
         }
     }
-    rep.exhaustive.push("boundary matrix: every literal-bearing instruction form x boundary values x spellings".into());
+    // the same forms late in a long program: the statement sits on word 32,766..32,769 and on the
+    // last words a 16-bit program can have (where "the next address" wraps)
+    for form in forms() {
+        let lo = if form.signed { -(1i32 << (form.bits - 1)) } else { 0 };
+        let hi = if form.signed { (1i32 << (form.bits - 1)) - 1 } else { ((1u32 << form.bits) - 1) as i32 };
+        for pad in [0x7FFEu16, 0x7FFF, 0x8000, 0xFFFC, 0xFFFD, 0xFFFE] {
+            for v in [lo - 1, lo, lo + 1, -1, 0, 1, hi - 1, hi, hi + 1] {
+                if !(-32768..=65535).contains(&v) || (!form.signed && v < 0) {
+                    continue;
+                }
+                n += 1;
+                if !ctx.mine(n) {
+                    continue;
+                }
+                let lines = vec![
+                    Line::stmt(None, Stmt::new(Op::Blkw, &[], Operand::Lit(Lit::Hex(pad, 0)))),
+                    Line::stmt(None, (form.make)(Lit::Dec(v))),
+                ];
+                let case = Case {
+                    program: Program { lines },
+                    stack: false,
+                    layout: Layout { seed: n, style: (n % 2) as u8, end: false },
+                    focus: format!("{}-late-in-program", form.name),
+                    nontrivial: true,
+                };
+                judge_one(ctx, rep, &case, &mut |c| {
+                    let mut o = judge_case(c);
+                    o.label("matrix-late-in-program");
+                    o
+                });
+            }
+        }
+    }
+    rep.exhaustive.push("boundary matrix: every literal-bearing instruction form x boundary values x spellings; the limits of every form on words 32,766..32,768 and 65,532..65,534 of the program".into());
 }
 
 // ---------------------------------------------------------------------------------------------
@@ -607,7 +640,7 @@ impl Prop for C04 {
         "C04"
     }
     fn rule(&self) -> &'static str {
-        "Deterministic matrices (every run): (a) every literal-bearing instruction form x {min-2..min+1, -1, 0, 1, max-1..max+2, 0x7FFF, 0x8000, 0xFFFF, -32768, 16-bit patterns at the two's-complement limits} x spellings (#dec, xH, 0xH, XH, x-H, 0x-H); \
+        "Deterministic matrices (every run): (a) every literal-bearing instruction form x {min-2..min+1, -1, 0, 1, max-1..max+2, 0x7FFF, 0x8000, 0xFFFF, -32768, 16-bit patterns at the two's-complement limits} x spellings (#dec, xH, 0xH, XH, x-H, 0x-H), and the limits of every form again on words 32,766..32,768 and 65,532..65,534 of a long program; \
          (b) label distances exactly at/around +-2^(n-1) for every PC-relative form (8 BR spellings, LD/LDI/LEA/ST/STI, JSR, CALL) built with .blkw padding, before/after/on the statement, at the start of the program and straddling word 32768 of it; (c) undefined / duplicate / case-differing labels; (d) .orig zero, once, twice, in the middle; \
          (e) random programs with 0-2 injected misfits (literal out of range, undefined label, duplicate label, repeated .orig, label pushed out of reach). Oracle: accepted <=> RefAsm.accepts(AST); when accepted the image equals the encoder's; when rejected there is a diagnostic, not a panic. \
          Non-trivial: focus operand within +-1 of a field limit, a label-discipline / .orig case, or a random program with an injected misfit. Distinct = hash(AST, flag)."
